@@ -86,15 +86,17 @@ def _partition_sibling_fallback(ctx, a, why: str) -> None:
 
 _T = "table"
 MUTANTS = [
+    dict(id="window-key-names-left-to-right", module="table", old='\t\t\tif col._name is not None and col._name not in kept_names:\n\t\t\t\tkept_names.add(col._name)\n\t\t\t\tkey_name = col._name\n\t\t\telse:\n\t\t\t\t# (\'\' is a name like any other)\n\t\t\t\tkey_name = uniquify(col._name if col._name is not None else "key")\n', new='\t\t\tkey_name = uniquify(col._name if col._name is not None else "key")\n',
+         rules=["c.key-columns"], desc="reverts fix 0eb5be7 (the loop; the reservation alone does not keep a key's name)"),
     dict(id="expand-skips-last-row", module=_T, old="			return [group_map[row_keys[i]] for i in range(nrows)]",
          new="			return [group_map[row_keys[i]] for i in range(nrows - 1)] + [None]", rules=["b.expansion"]),
     dict(id="expand-in-group-order", module=_T, old="			return [group_map[row_keys[i]] for i in range(nrows)]",
          new="			return [group_map[k] for k, rows in group_items for _ in rows]", rules=["b.expansion"]),
     dict(id="row-keys-outside-loop", module=_T, old="			key = tuple(over_data[k][i] for k in range(pk_len))\n			row_keys[i] = key\n",
          new="			key = tuple(over_data[k][i] for k in range(pk_len))\n", rules=["a.partition"]),
-    dict(id="window-key-column-sorted", module=_T, old="				Vector(list(col), dtype=col._dtype, name=",
-         new="				Vector(sorted(col), dtype=col._dtype, name=", rules=["c.key-columns"]),
-    dict(id="window-key-column-reinferred", module=_T, old="				Vector(list(col), dtype=col._dtype, name=", new="				Vector(list(col), name=",
+    dict(id="window-key-column-sorted", module=_T, old="			result_cols.append(Vector(list(col), dtype=col._dtype, name=key_name))",
+         new="			result_cols.append(Vector(sorted(col), dtype=col._dtype, name=key_name))", rules=["c.key-columns"]),
+    dict(id="window-key-column-reinferred", module=_T, old="			result_cols.append(Vector(list(col), dtype=col._dtype, name=key_name))", new="			result_cols.append(Vector(list(col), name=key_name))",
          rules=["c.key-columns"], desc="reverts the fix: a masked <int?> key comes out <int>, an all-None typed key <object?>"),
     dict(id="window-key-name-falsy", module=_T, count=2, nth=1, old="col._name if col._name is not None else \"key\"", new="col._name or \"key\"",
          rules=["c.key-columns"], desc="a key column named '' is renamed to 'key'"),
